@@ -57,6 +57,7 @@ def main():
     import sympy as sp
 
     from tools.corr import C17_corr as corr
+    from tools.search import C17_oracle as oracle
 
     rng = common.rng_for("C17", seed, "hashsweep")
     models = corr.load_real_models(only=("jpsi_gpp_can/bw_ff+stable12", "lc_pkpi_hel/dpd+stable123+scalar", "jpsi_3pi_hel/axisangle"))
@@ -71,11 +72,15 @@ def main():
         for kind in corr.KINDS:
             ren = corr.gen_map(rng, info, kind)
             rd = dict(ren)
+            if oracle.mixes_commutativity(m, rd):  # outside the domain (SymPy's Abs does not terminate); same in every child
+                continue
             r = m.rename_symbols(ren)
             cases.append({"model": label, "renames": list(rd.items()), "digest": canon(r)})
             # a second rename on the result (history)
             ren2 = corr.gen_map(rng, corr.model_info(r), "mixed")
             rd2 = dict(ren2)
+            if oracle.mixes_commutativity(r, rd2):
+                continue
             cases.append({"model": label + " after " + json.dumps(list(rd.items())), "renames": list(rd2.items()),
                           "digest": canon(r.rename_symbols(ren2))})
     # F2: two unrenamed symbols share the target name
